@@ -29,6 +29,7 @@ from pyvc.values import NONE, V, VBool, VExt, VFunc, VNoneT, VRef, VStr, VTuple,
 from pyvc.verify import p_ext, p_obj, p_opt
 
 from contracts import C19 as B
+from contracts import c19_push as _push
 
 El, S = B.El, B.S
 PPTX = "sharepoint2text/parsing/extractors/ms_modern/pptx_extractor.py"
@@ -218,6 +219,42 @@ class SiteExecutor(B.C19Executor):
                 if r is not None:
                     pc, goal = r
         return super().add_vc(kind, label, pc, goal, note, loc)
+
+    # -- iteration over an uncontracted generator helper of the module: push form (contracts/c19_push.py) ----
+    def s_For(self, s, st):
+        if self.site_mode():
+            stmts = _push.loop_stmts(self, st, s)
+            if stmts is not None:
+                return self.exec_block(stmts, st)
+        return super().s_For(s, st)
+
+    def e_ListComp(self, n, st):
+        if self.site_mode():
+            r = _push.comp_stmts(self, st, n)
+            if r is not None:
+                stmts, acc = r
+                out = []
+                for o in self.exec_block(stmts, st):
+                    if o.kind == "fall":
+                        out.append((o.st, o.st.lookup(acc)))
+                    elif o.kind == "raise":
+                        self.raise_in(o.st, o.val)
+                    else:
+                        self.unsupported(n, f"{o.kind} leaving a comprehension")
+                return out
+        return super().e_ListComp(n, st)
+
+    def _pushed(self, node):
+        hit = self.__dict__.get("_push_labels", {}).get(id(node))
+        return hit[1] if hit is not None and hit[0] is node else None
+
+    def loop_spec(self, node):
+        if self._pushed(node) is not None and self.contract is not None and self.inline_depth == 0:
+            return self.contract.loops.get("*")
+        return super().loop_spec(node)
+
+    def loop_label(self, node):
+        return self._pushed(node) or super().loop_label(node)
 
     # -- the id set, the result list, the conversion counter ---------------------------------
     def construct(self, st, t, args, kwargs, node):
